@@ -38,6 +38,7 @@ fn families(t: Tier) -> Vec<(&'static str, u64)> {
         ("binary", t.n(14_400, 14_400 * 6)),
         ("matmul", t.n(20_000, 240_000)),
         ("conv", t.n(10_000, 120_000)),
+        ("large", t.n(600, 20_000)),
     ]
 }
 fn floors(_t: Tier) -> Vec<(&'static str, u64)> {
@@ -299,11 +300,61 @@ pub fn gen_conv(r: &mut Rng, k: u64) -> OpCase {
     OpCase { kind: OpKind::Conv { sr, sc }, dims: vec![di, df], vals, mask, cell }
 }
 
+/// operations at sizes beyond small blocking thresholds: matmul 5..12, conv images up to 10 with filters up to 4,
+/// reductions and maps over rows of 17..40 elements
+pub fn gen_large(r: &mut Rng, k: u64) -> OpCase {
+    match k % 4 {
+        0 => {
+            let (m, kk, n) = (r.range(5, 12), r.range(5, 12), r.range(5, 12));
+            let (ta, tb) = (r.chance(1, 2), r.chance(1, 2));
+            let lead: Vec<usize> = if r.chance(1, 3) { vec![2] } else { vec![] };
+            let mut da = lead.clone();
+            if ta { da.extend(&[kk, m]) } else { da.extend(&[m, kk]) }
+            let mut db = if r.chance(1, 2) { lead.clone() } else { vec![] };
+            if tb { db.extend(&[n, kk]) } else { db.extend(&[kk, n]) }
+            let with_c = r.chance(1, 2);
+            let mut dims = vec![da.clone(), db.clone()];
+            if with_c { dims.push(vec![n]); }
+            let vals = dims.iter().map(|d| rand_ints(r, numel(d), -2, 2)).collect();
+            let nops = dims.len();
+            OpCase { kind: OpKind::Matmul { ta, tb, c: with_c }, dims, vals, mask: mask_of(nops, r.below((1 << nops) - 1)), cell: "large|matmul".into() }
+        }
+        1 => {
+            let (fr, fc) = (r.range(1, 4), r.range(1, 4));
+            let (h, w) = (fr + r.below(7), fc + r.below(7));
+            let (sr, sc) = (r.range(1, 3), r.range(1, 3));
+            let d = r.range(1, 3);
+            let cnt = r.range(1, 3);
+            let mut di: Vec<usize> = if r.chance(1, 2) { vec![2] } else { vec![] };
+            di.extend(&[d, h, w]);
+            let df = vec![cnt, d, fr, fc];
+            let vals = vec![rand_ints(r, numel(&di), -2, 2), rand_ints(r, numel(&df), -2, 2)];
+            OpCase { kind: OpKind::Conv { sr, sc }, dims: vec![di, df], vals, mask: mask_of(2, r.below(3)), cell: "large|conv".into() }
+        }
+        2 => {
+            let n = r.range(17, 40);
+            let d = if r.chance(1, 2) { vec![2, n] } else { vec![n] };
+            let kk = r.range(1, d.len());
+            let vals = vec![rand_ints(r, numel(&d), -4, 4)];
+            OpCase { kind: OpKind::Sum(kk), dims: vec![d], vals, mask: vec![true], cell: "large|sum".into() }
+        }
+        _ => {
+            let n = r.range(17, 40);
+            let full = vec![r.range(1, 3), n];
+            let db = if r.chance(1, 2) { vec![n] } else { vec![full[0], 1] };
+            let kind = [OpKind::Add, OpKind::Mul, OpKind::Sub, OpKind::Axpy(-2.0)][r.below(4)].clone();
+            let vals = vec![rand_ints(r, numel(&full), -4, 4), rand_ints(r, numel(&db), -4, 4)];
+            OpCase { kind, dims: vec![full, db], vals, mask: mask_of(2, r.below(3)), cell: "large|elementwise".into() }
+        }
+    }
+}
+
 pub fn gen_case(fam: &str, k: u64, r: &mut Rng) -> Option<OpCase> {
     match fam {
         "unary" => Some(gen_unary(r, k)),
         "binary" => gen_binary(r, k),
         "matmul" => Some(gen_matmul(r, k)),
+        "large" => Some(gen_large(r, k)),
         _ => Some(gen_conv(r, k)),
     }
 }
